@@ -21,37 +21,43 @@ Definition short_tag (m_shortTagMap : list (Z * list (Z * bytes))) (m_levelToStr
       | None => let t := (level_string m_levelToString level) in
         if (0 <? (Z.of_nat (List.length t)))
         then let l := (Z.of_nat (List.length t)) in
-        if (l <? length_) then match str_repeat [x20] length_ with
+        if (l =? length_) then Some (t)
+        else if (l <? length_) then match str_repeat [x20] length_ with
         | None => None
         | Some r1_ => let t := (t ++ r1_) in
-          Some (t)
+          match str_prefix t length_ with
+          | None => None
+          | Some r2_ => Some (r2_)
+          end
         end
-        else if (l =? length_) then Some (t)
         else match str_prefix t length_ with
         | None => None
-        | Some r2_ => Some (r2_)
+        | Some r3_ => Some (r3_)
         end
         else match str_repeat [x3f] length_ with
         | None => None
-        | Some r3_ => Some (r3_)
+        | Some r4_ => Some (r4_)
         end
       end
     | None => let t := (level_string m_levelToString level) in
       if (0 <? (Z.of_nat (List.length t)))
       then let l := (Z.of_nat (List.length t)) in
-      if (l <? length_) then match str_repeat [x20] length_ with
+      if (l =? length_) then Some (t)
+      else if (l <? length_) then match str_repeat [x20] length_ with
       | None => None
-      | Some r4_ => let t := (t ++ r4_) in
-        Some (t)
+      | Some r5_ => let t := (t ++ r5_) in
+        match str_prefix t length_ with
+        | None => None
+        | Some r6_ => Some (r6_)
+        end
       end
-      else if (l =? length_) then Some (t)
       else match str_prefix t length_ with
       | None => None
-      | Some r5_ => Some (r5_)
+      | Some r7_ => Some (r7_)
       end
       else match str_repeat [x3f] length_ with
       | None => None
-      | Some r6_ => Some (r6_)
+      | Some r8_ => Some (r8_)
       end
     end.
 Definition translated_short_tag := true.
